@@ -308,11 +308,13 @@ CLAIMS = {
        "'<that type>' ]`, `rule <name> when %<v> !empty {` with <v> = <name>_resources, one clause per recorded property about that variable "
        "and that property (`IN [..]` iff more than one value was recorded, else `==`), and `}` - the five format templates are decoded from "
        "the MIR constants and compared with the documented ones, the holes are checked by value identity (<= 2 types x <= 2 properties); one "
-       "gen_rules step never removes anything and ends in an insert for the property visited; gen_rules never unwraps template content (C08).",
+       "gen_rules step never removes anything, ends in an insert for the property visited, and the text it records is the property value's own "
+       "rendering (serde's to_string of that value, or the string it is), never a re-computed number; gen_rules never unwraps template "
+       "content (C08).",
   note="NOT decided: that the emitted rules PASS on the template they came from. KNOWN FINDING (recorded, not repaired): they do not when "
        "resources of one type have different property sets - exhibited by an abstract two-Boolean obligation over the code facts above plus "
        "C01's 'unresolved = FAIL' (this one obligation is about a model of the round trip, not about one function's MIR) and replayed by "
-       "rulegen + validate. Also not decided: the value strings (quoting, newlines stripped), serde's reading of the template, the name "
+       "rulegen + validate. Also not decided: what serde's to_string prints for a value, the quoting / newline stripping, serde's reading of the template, the name "
        "mangling (`::` -> `_`, lower case) beyond the call sequence. No Kani harness serves this property.",
   design="0b/C19"),
 }
